@@ -123,8 +123,17 @@ fn box_input(nvars: usize, input: u8) -> Vec<Interval> {
         .collect()
 }
 
-fn lanes(input: u8) -> usize {
-    if input == 0 { 5 } else { 13 }
+/// Slice length of a bulk use.  It depends on the function as well as on the
+/// input, so that histories contain "longer slice, then a shorter one that is
+/// still longer than a SIMD vector and not a multiple of it" (20 -> 12, 13 ->
+/// 12) next to lengths below the SIMD width
+fn lanes(f: u8, input: u8) -> usize {
+    match (f % 2, input) {
+        (0, 0) => 5,
+        (0, _) => 13,
+        (_, 0) => 12,
+        _ => 20,
+    }
 }
 
 fn tr(t: Option<&VmTrace>) -> Option<Vec<u8>> {
@@ -186,7 +195,7 @@ impl<F: Backend> World<F> {
             Use::Float { f, input } => {
                 let fun = &funs[f as usize];
                 let tape = fun.f.float_slice_tape(self.tape_storage.pop().unwrap_or_default());
-                let n = lanes(input);
+                let n = lanes(f, input);
                 let cols: Vec<Vec<f32>> = (0..fun.nvars)
                     .map(|v| (0..n).map(|l| 0.25 * l as f32 - 1.0 + v as f32 * 0.5).collect())
                     .collect();
@@ -203,7 +212,7 @@ impl<F: Backend> World<F> {
             Use::Grad { f, input } => {
                 let fun = &funs[f as usize];
                 let tape = fun.f.grad_slice_tape(self.tape_storage.pop().unwrap_or_default());
-                let n = lanes(input);
+                let n = lanes(f, input);
                 let cols: Vec<Vec<Grad>> = (0..fun.nvars)
                     .map(|v| {
                         (0..n)
